@@ -47,64 +47,6 @@ RULE += (' ' +
          'outgoing listener; listeners given as function, bound method of a '
          'temporary object, partial, slotted callable object, classmethod '
          '(the harness keeps no reference of its own); disconnect from an '
-         'incoming listener; ignore of login success. ')
-RULE += (' ' +
-         'Added in later rounds: a bystander Connection with its own '
-         'listeners; one decorator object applied to several handlers; the '
-         'same callable registered twice; forced writes from an early '
-         'outgoing listener; listeners given as function, bound method of a '
-         'temporary object, partial, slotted callable object, classmethod '
-         '(the harness keeps no reference of its own); disconnect from an '
-         'incoming listener; ignore of login success. Round 11: flags '
-         'spelled 1 / 0 / None as well as True / False; zero-valued library '
-         'packets (empty record arrays) in histories with listeners for '
-         'their classes. ')
-RULE += (' ' +
-         'Added in later rounds: a bystander Connection with its own '
-         'listeners; one decorator object applied to several handlers; the '
-         'same callable registered twice; forced writes from an early '
-         'outgoing listener; listeners given as function, bound method of a '
-         'temporary object, partial, slotted callable object, classmethod '
-         '(the harness keeps no reference of its own); disconnect from an '
-         'incoming listener; ignore of login success. Round 11: flags '
-         'spelled 1 / 0 / None as well as True / False; zero-valued library '
-         'packets (empty record arrays) in histories with listeners for '
-         'their classes. ')
-RULE += (' ' +
-         'Added in later rounds: a bystander Connection with its own '
-         'listeners; one decorator object applied to several handlers; the '
-         'same callable registered twice; forced writes from an early '
-         'outgoing listener; listeners given as function, bound method of a '
-         'temporary object, partial, slotted callable object, classmethod '
-         '(the harness keeps no reference of its own); disconnect from an '
-         'incoming listener; ignore of login success. Round 11: flags '
-         'spelled 1 / 0 / None as well as True / False; zero-valued library '
-         'packets (empty record arrays) in histories with listeners for '
-         'their classes. Round 13: component rewrite - early outgoing '
-         'listeners that censor chat / rename the login; the wire and the '
-         'ordinary outgoing listeners see the rewritten packet. ')
-RULE += (' ' +
-         'Added in later rounds: a bystander Connection with its own '
-         'listeners; one decorator object applied to several handlers; the '
-         'same callable registered twice; forced writes from an early '
-         'outgoing listener; listeners given as function, bound method of a '
-         'temporary object, partial, slotted callable object, classmethod '
-         '(the harness keeps no reference of its own); disconnect from an '
-         'incoming listener; ignore of login success. Round 11: flags '
-         'spelled 1 / 0 / None as well as True / False; zero-valued library '
-         'packets (empty record arrays) in histories with listeners for '
-         'their classes. Round 13: component rewrite - early outgoing '
-         'listeners that censor chat / rename the login; the wire and the '
-         'ordinary outgoing listeners see the rewritten packet. Round 14: '
-         'empty type filters in all four listener classes, both registration '
-         'forms. ')
-RULE += (' ' +
-         'Added in later rounds: a bystander Connection with its own '
-         'listeners; one decorator object applied to several handlers; the '
-         'same callable registered twice; forced writes from an early '
-         'outgoing listener; listeners given as function, bound method of a '
-         'temporary object, partial, slotted callable object, classmethod '
-         '(the harness keeps no reference of its own); disconnect from an '
          'incoming listener; ignore of login success. Round 11: flags '
          'spelled 1 / 0 / None as well as True / False; zero-valued library '
          'packets (empty record arrays) in histories with listeners for '
@@ -114,7 +56,9 @@ RULE += (' ' +
          'empty type filters in all four listener classes, both registration '
          "forms. Round 15: C14's pending-write-error scenario (the "
          'triggering packet is read in the pass in which a queued write '
-         'failed) run as component route. ')
+         'failed) run as component route. Round 16: component dead_peer '
+         '(delegated to C16) with a late outgoing listener - it sees only '
+         'packets the link accepted. ')
 LEVEL_TEXT = ('Model-based testing of the documented listener dispatch over '
               'generated listener configurations x packet histories on an '
               'in-memory network, with event sequence numbers relating '
